@@ -34,6 +34,8 @@ pub trait Basic {
     fn b_pin(self: Pin<&Self>) -> u64;
     fn b_pin_mut(self: Pin<&mut Self>, v: u64) -> u64;
     extern "C" fn b_c_mut(&mut self, v: i32) -> i32;
+    /// two arguments of the same type: swapping them must show
+    fn b_sub(&mut self, x: u64, y: u64) -> u64;
     /// default method with a `where` clause, overridden by the implementors
     fn b_where(&mut self, v: u64) -> u64
     where
@@ -85,6 +87,9 @@ pub trait Shapes {
     fn s_str_to_str<'a>(&'a mut self, s: &str) -> &'a str;
     fn s_vec(&mut self, v: CVec<u64>) -> CVec<u64>;
     fn s_mut_ref(&mut self, out: &mut u64) -> bool;
+    fn s_two_slices(&mut self, a: &[u8], b: &[u8]) -> i64;
+    fn s_opt_then_slice(&mut self, o: Option<u64>, s: &[u64], t: &str) -> u64;
+    fn s_two_mut(&mut self, a: &mut [u8], b: &mut u32) -> usize;
 }
 
 #[derive(Debug, PartialEq, Eq, Clone, Copy)]
@@ -334,6 +339,10 @@ macro_rules! implementor {
                 self.core.enter("b_c_mut", v as u64, &[]);
                 self.core.mix(v as u64) as i32
             }
+            fn b_sub(&mut self, x: u64, y: u64) -> u64 {
+                self.core.enter("b_sub", d2(x, y.rotate_left(1)), &[]);
+                self.core.mix(x.wrapping_sub(y.wrapping_mul(3)))
+            }
             fn b_where(&mut self, v: u64) -> u64 {
                 self.core.enter("b_where", v, &[]);
                 self.core.mix(v ^ 0x3E7E).wrapping_add(1000)
@@ -471,6 +480,25 @@ macro_rules! implementor {
                 self.core.enter("s_vec", d, &[]);
                 v.push(self.core.mix(d));
                 v
+            }
+            fn s_two_slices(&mut self, a: &[u8], b: &[u8]) -> i64 {
+                self.core.enter("s_two_slices", d2(fnv(a), fnv(b).rotate_left(3)), &[(a.as_ptr() as usize, a.len()), (b.as_ptr() as usize, b.len())]);
+                self.core.mix(fnv(a) ^ fnv(b).rotate_left(5));
+                a.len() as i64 - 2 * b.len() as i64
+            }
+            fn s_opt_then_slice(&mut self, o: Option<u64>, s: &[u64], t: &str) -> u64 {
+                let mut d = o.map(|x| x ^ 0x0F).unwrap_or(9);
+                for x in s { d = d2(d, *x); }
+                d = d2(d, fnv(t.as_bytes()));
+                self.core.enter("s_opt_then_slice", d, &[(s.as_ptr() as usize, s.len()), (t.as_ptr() as usize, t.len())]);
+                self.core.mix(d)
+            }
+            fn s_two_mut(&mut self, a: &mut [u8], b: &mut u32) -> usize {
+                self.core.enter("s_two_mut", d2(fnv(a), *b as u64), &[(a.as_ptr() as usize, a.len()), (b as *mut u32 as usize, 1)]);
+                let k = self.core.mix(*b as u64) as u8;
+                for x in a.iter_mut() { *x ^= k; }
+                *b = b.wrapping_add(a.len() as u32 + 1);
+                a.len()
             }
             fn s_mut_ref(&mut self, out: &mut u64) -> bool {
                 self.core.enter("s_mut_ref", *out, &[(out as *mut u64 as usize, 1)]);
